@@ -431,6 +431,48 @@ def module_trees(seed: int, n: int):
     return checked, problems
 
 
+def domain_traces():
+    """Traces that use operators of a non-default domain (a second OpBuilder of the builder, or the _domain / _version call
+    options).  Verdict: validity only (every domain used is imported once; onnx.checker) -- labelled enumeration."""
+    import onnx
+    import onnxscript
+    from vp.symonnx import wellformed as W
+    problems, checked = [], 0
+    cases = {
+        "second OpBuilder gb.opset('com.microsoft', 1)": lambda gb, x: gb.opset("com.microsoft", 1).Gelu(x),
+        "second OpBuilder after a default-domain op": lambda gb, x: gb.opset("com.microsoft", 1).Gelu(gb.op.Relu(x)),
+        "_domain option on the default OpBuilder": lambda gb, x: gb.op.Gelu(x, _domain="com.microsoft"),
+        "_domain and _version options": lambda gb, x: gb.op.Gelu(x, _domain="com.microsoft", _version=1),
+        "two non-default domains": lambda gb, x: gb.opset("ai.onnx.ml", 3).Binarizer(gb.opset("com.microsoft", 1).Gelu(x), threshold=0.5),
+        "non-default domain inside a subgraph": lambda gb, x: gb.op.If(
+            gb.op.Constant(value=ir.tensor(np.array(True))),
+            then_branch=gb.subgraph(lambda op2: op2.builder.opset("com.microsoft", 1).Gelu(x), inputs=[],
+                                    outputs=[ir.Value(name="t_out", type=ir.TensorType(DT.FLOAT), shape=ir.Shape([2]))], name="t"),
+            else_branch=gb.subgraph(lambda op2: op2.Identity(x), inputs=[],
+                                    outputs=[ir.Value(name="e_out", type=ir.TensorType(DT.FLOAT), shape=ir.Shape([2]))], name="e")),
+    }
+    for tag, fn in cases.items():
+        g = ir.Graph(name="dom", inputs=[], outputs=[], nodes=[], opset_imports={"": 18})
+        x = ir.Value(name="x", type=ir.TensorType(DT.FLOAT), shape=ir.Shape([2]))
+        g.inputs.append(x)
+        try:
+            y = fn(onnxscript.GraphBuilder(g), x)
+            y.type, y.shape = ir.TensorType(DT.FLOAT), ir.Shape([2])
+            g.outputs.append(y)
+            mp = ir.to_proto(ir.Model(g, ir_version=9))
+        except Exception as e:  # noqa: BLE001
+            problems.append(f"{tag}: building raised {type(e).__name__}: {str(e)[:160]}")
+            continue
+        checked += 1
+        for p in W.check_model(mp):
+            problems.append(f"{tag}: {p}")
+        try:
+            onnx.checker.check_model(mp)
+        except Exception as e:  # noqa: BLE001
+            problems.append(f"{tag}: onnx.checker: {str(e)[:160]}")
+    return checked, problems
+
+
 def main(tier: str, only=None) -> int:
     run = common.Run("C18", tier, "translation_validation")
     n = 120 if tier == "quick" else 2000
@@ -485,6 +527,10 @@ def main(tier: str, only=None) -> int:
     checked, problems = module_trees(common.seed(), 60 if tier == "quick" else 1000)
     for p in problems:
         report("module_tree", "naming", p)
+    dom_checked, dom_problems = domain_traces()
+    for p in dom_problems:
+        report("domain_trace", "validity", p)
+    run.coverage["non_default_domain_traces_checked"] = dom_checked
     from onnxscript._internal import builder as B
     run.coverage.update({
         "programs": len(traces) + len(call_res), "disagreements_checked": counts.get("cex", 0),
